@@ -18,7 +18,8 @@ MANIFEST = dict(
               "exact rational file contents, model-checked with TLC; every finished TLC behaviour is replayed as a "
               "run of the real csg_stat executable on generated inputs and all written files are compared",
     text="TLC builds small lattice set-ups (one/two bead types, molecules with bonds and an angle, three-body "
-         "clusters; 3-4 frames with a different box per frame), computes every frame histogram itself by "
+         "clusters, skewed triclinic boxes; 3-4 frames with a different box per frame; planted distances just "
+         "below a range with min > 0, guarded by spec-internal invariants), computes every frame histogram itself by "
          "brute-force minimum image and the nearest-centre rule, and steps the Imc state machine over every "
          "prefix of the trajectory, every --first-frame/--block-length of the model; invariants (running-mean "
          "identity, symmetric IMC matrix, block independence incl. the volume average) hold on all states, and "
@@ -27,7 +28,7 @@ MANIFEST = dict(
          "compared value by value with the TLC-emitted exact rationals at the printed precision.",
     note="Trusted: TLC, the lattice argument (positions k/8 nm, bin layouts k/32 nm or rad: every edge decision "
          "is exact or far from an edge), the brackets 103993/33102 < pi < 355/113, Python's Fraction/float "
-         "conversion, the XML/gro/dump writers of the check. Not covered: dihedrals, triclinic boxes, force "
+         "conversion, the XML/gro/dump writers of the check. Not covered: dihedrals, triclinic boxes with tilted c, force "
          "histograms, bonded interactions inside IMC groups, mapping (--cg; see C01), wildcard types.")
 
 PI = math.pi
